@@ -2550,6 +2550,9 @@ def _tensordot_via_fused(a, b, left_axes, axes_a, axes_b, right_axes):
     # fuse into matrices or maybe vectors
     af = AbelianArray.fuse(a, left_axes, axes_a, expand_empty=False)
     bf = AbelianArray.fuse(b, axes_b, right_axes, expand_empty=False)
+    # only groups of more than one axis are actually fused (and later unfused)
+    unfuse_left = len(left_axes) > 1
+    unfuse_right = len(right_axes) > 1
 
     # handle potential vector and scalar cases
     left_axes, axes_a = {
@@ -2569,10 +2572,12 @@ def _tensordot_via_fused(a, b, left_axes, axes_a, axes_b, right_axes):
     # tensordot the fused blocks
     cf = _tensordot_blockwise(af, bf, left_axes, axes_a, axes_b, right_axes)
 
-    # unfuse result into (*left_axes, *right_axes)
-    for ax in reversed(range(cf.ndim)):
-        if cf.indices[ax].subinfo is not None:
-            AbelianArray.unfuse(cf, ax, inplace=True)
+    # unfuse result into (*left_axes, *right_axes), n.b. only the groups
+    # fused above: a single free leg that was already fused stays fused
+    if unfuse_right:
+        AbelianArray.unfuse(cf, cf.ndim - 1, inplace=True)
+    if unfuse_left:
+        AbelianArray.unfuse(cf, 0, inplace=True)
 
     return cf
 
